@@ -43,10 +43,19 @@ def run(F, R, tier):
                    "insert_key_id acquires %s; the membership test and the insertion must happen under one exclusive guard acquired once (a read guard for the test and a later write guard lets two racing inserts both succeed)" % names)
         cks = body.calls(re.compile(contains_re))
         ins = body.calls(re.compile(insert_re))
-        if not r1.require(len(cks) == 1 and len(ins) == 1, (fn, "ops"), "expected one contains_key and one insert, found %d/%d" % (len(cks), len(ins))):
+        entry_api = False
+        if not cks and not ins:
+            # the map's entry API: `match map.entry(k) { Occupied(_) => Err, Vacant(slot) => slot.insert(v) }` — test and insertion
+            # are one operation on the same borrow, and VacantEntry::insert exists only for an absent key
+            cks = body.calls(re.compile(r"HashMap(<.*>)?::entry$|BTreeMap(<.*>)?::entry$"))
+            ins = body.calls(re.compile(r"(hash_map|btree_map|map)::(entry::)?VacantEntry(<.*>)?::insert(_entry)?$|VacantEntry(<.*>)?::insert$"))
+            entry_api = bool(cks) and bool(ins)
+        if not r1.require(len(cks) == 1 and len(ins) == 1, (fn, "ops"), "expected one membership test and one insertion (contains_key + insert, or entry + VacantEntry::insert), found %d/%d" % (len(cks), len(ins))):
             continue
         if acq:
             tainted = body.taint_forward({M.place_local(acq[0][1]["dst"])}, extra_through=re.compile(r"(get_client|Client::store|::store|Deref(Mut)?::deref(_mut)?|::as_ref|::clone)$"))
+            if entry_api:
+                tainted = body.taint_forward({M.place_local(acq[0][1]["dst"])}, extra_through=re.compile(r"(get_client|Client::store|::store|Deref(Mut)?::deref(_mut)?|::as_ref|::clone|Map(<.*>)?::entry)$"))
             for lab, (bi, t) in (("contains_key", cks[0]), ("insert", ins[0])):
                 recv = M.op_local(t["args"][0])
                 r1.require(recv in tainted, (fn, "through-guard", lab), "the %s does not go through the acquired guard" % lab, t["sp"])
@@ -75,6 +84,11 @@ def run(F, R, tier):
         atoms = M.switch_atoms(body, classify)
         vals = M.path_valuations(body, atoms, [ins[0][0]])[ins[0][0]]
         okp = bool(vals) and all(("present", False) in v for v in vals)
+        if entry_api:
+            # VacantEntry::insert is only reachable with the Vacant variant of the entry obtained from the single entry() call
+            recv = M.op_local(ins[0][1]["args"][0])
+            locs, calls_, _ = body.backward_slice([recv]) if recv is not None else (set(), [], None)
+            okp = any(re.search(r"Map(<.*>)?::entry$", M.callee(c_) or "") for _, c_ in calls_)
         r1.site("insertion reached only with present == false: %s" % okp, ins[0][1]["sp"])
         r1.require(okp, (fn, "insert-if-absent"), "the insertion is reachable without the membership test having returned false")
         # the key tested is the key inserted
